@@ -9,6 +9,7 @@ require (
 	github.com/TheCacophonyProject/thermal-recorder v0.0.0
 	github.com/TheCacophonyProject/window v0.0.0-20200312071457-7fc8799fdce7
 	gopkg.in/yaml.v1 v1.0.0-20140924161607-9f9df34309c0
+	gopkg.in/yaml.v2 v2.2.8
 )
 
 replace github.com/TheCacophonyProject/thermal-recorder => /repo
